@@ -31,7 +31,7 @@ Proof. exact propagate_set_children. Qed.
    none; for every chain length (the fuel only has to cover the chain). *)
 Theorem C28_workdir : forall ds d k r fuel,
   inherits ds d k r -> k <= fuel -> get_workdir fuel ds d = WOk r.
-Proof. intros ds d k r fuel H. exact (get_workdir_inherits ds d k r H fuel). Qed.
+Proof. exact get_workdir_inherits'. Qed.
 
 (* The cycle check always terminates (the model's fuel is never exhausted) ... *)
 Theorem C28_check_terminates : forall ds, check_stacked ds <> CFuel.
